@@ -403,6 +403,27 @@ def h_net_sample(w, st, rec):
                                "global_rng_prestates_differ": differ})
     if rec.get("keep"):
         st.results[rec["keep"]] = S
+    # systematic single-fault sweep over the predict messages of this call (oracle 8)
+    if rec.get("sweep") and not pf and not failed_peer:
+        M = sum(1 for m in msgs if m[0] == "predict")
+        for k in range(1, M + 1):
+            peer().arm("predict", k)
+            f0 = peer().fired
+            l0 = len(peer().log)
+            o2 = w.call(lambda: obj.sample(n, random_state=rec.get("seed")))
+            peer().disarm()
+            w.probes["sweep.peer_fault_positions"] += 1
+            if peer().fired > f0:
+                w.faults["peer.error"] += 1
+                w.faults["peer.error:predict"] += 1
+            if o2[0] == "ok":
+                for cls, s2, detail in check_sample(w, st, rec["net"], net, dict(rec, n=n), o2[1], peer().log[l0:]):
+                    w.violate("wrong_data_after_peer_fault", s2, dict(detail, underlying=cls, failed_message=k))
+        if M and rec.get("seed") is not None:
+            o3 = w.call(lambda: obj.sample(n, random_state=rec["seed"]))
+            if o3[0] != "ok" or digest(o3[1]) != digest(S):
+                w.violate("seeded_sample_differs", site, {"what": "network not as usable as before after peer failures",
+                                                          "seed": rec["seed"]})
     return "ok:" + digest(S), out
 
 
@@ -642,6 +663,8 @@ def generate(run_seed):
             if g.random() < 0.5:
                 nres += 1
                 rec["keep"] = "r%d" % nres
+            if "peer.error" in faults and g.random() < cfg["fault_rate"]:
+                rec["sweep"] = True
             ops.append(rec)
             if rec["seed"] is not None:
                 sigs.append(rec)
@@ -705,7 +728,8 @@ REQUIRED_PROBES = ["sources>=2.independence_checkable", "sources>=2.independence
                    "non_source.parents>=2", "equal_sized_environments", "seed0",
                    "seeded_pair.nontrivial", "seeded_pair.seed0", "seeded_pair.sep.global_reseed",
                    "seeded_pair.k>=2.non_source", "peer.k>=2.non_source", "peer_fault.fit", "verbose",
-                   "sample_after_scribble_input", "n:none", "n:int", "n:list"] + \
+                   "sample_after_scribble_input", "n:none", "n:int", "n:list", "sweep.peer_fault_positions",
+                   "peer_fault.predict.raised"] + \
                   ["invalid:" + k for k in sorted(INVALID_NEW)] + ["invalid:" + k for k in sorted(INVALID_N)]
 
 
@@ -715,7 +739,8 @@ def simplify(op):
         if isinstance(n, int) and n > 1:
             yield dict(op, n=1)
             yield dict(op, n=n // 2)
-        if "keep" in op:
-            yield {k: v for k, v in op.items() if k != "keep"}
+        for flag in ("keep", "sweep"):
+            if flag in op:
+                yield {k: v for k, v in op.items() if k != flag}
     if op.get("op") == "net.new" and op.get("verbose"):
         yield dict(op, verbose=False)
